@@ -85,6 +85,17 @@ func prio(stream uint32, p h2wire.Prio) step {
 		}}
 }
 
+// goaway is the client's GOAWAY(NO_ERROR): it will open no more streams. It is not part of the fingerprint (no capture
+// gate, no effect on the reference state); what has been captured stays what it was.
+func goaway() step {
+	return step{name: "GOAWAY(NO_ERROR)", wire: func(*h2wire.Encoder) []byte { return h2wire.GoAway(0, 0, nil) }, apply: func(*h2fpref.State) {}, gates: -1}
+}
+
+// ping: a frame that is neither captured nor changes anything.
+func ping() step {
+	return step{name: "PING", wire: func(*h2wire.Encoder) []byte { return h2wire.Ping(false, [8]byte{7}) }, apply: func(*h2fpref.State) {}, gates: -1}
+}
+
 type scenario struct {
 	name  string
 	steps []step
@@ -119,6 +130,16 @@ func scenarios() []scenario {
 			prio(5, h2wire.Prio{Dep: 0, Excl: true, Weight: 200}),
 			settings(h2wire.Setting{ID: 4, Val: 131072}),
 			wu(0, 15663105),
+		}},
+		{"goaway-mid-request", []step{
+			// the client announces that it will open no more streams while its request is still on its way through the
+			// proxy; frames that only concern the connection follow
+			settings(h2wire.Setting{ID: 2, Val: 0}, h2wire.Setting{ID: 4, Val: 6291456}),
+			wu(0, 15663105),
+			hdrs(1, &h2wire.Prio{Dep: 0, Weight: 200}, ":method", ":authority", ":scheme", ":path"),
+			goaway(),
+			ping(),
+			prio(5, h2wire.Prio{Dep: 0, Weight: 100}),
 		}},
 		{"wu-then-settings", []step{
 			settings(),
@@ -186,8 +207,17 @@ func runOne(t *testing.T, sc scenario, c *mc.Chooser) (out mc.Outcome) {
 			if strings.HasPrefix(s.name, "HEADERS") && strings.Contains(s.name, "prio=true") {
 				gatesOf[i] = 2
 			}
+			if s.gates < 0 {
+				gatesOf[i] = 0 // not captured: the serve loop works it off on its way to the next capture gate
+			}
 		}
 		frame, passed := 0, 0
+		skip := func() {
+			for frame < len(gatesOf) && gatesOf[frame] == 0 {
+				frame++
+			}
+		}
+		skip()
 		last := ""
 		for {
 			synctest.Wait()
@@ -209,11 +239,13 @@ func runOne(t *testing.T, sc scenario, c *mc.Chooser) (out mc.Outcome) {
 			if p.Who == "sc" {
 				passed++
 				if passed == gatesOf[frame] {
-					// after this release the store(s) for this frame complete before the next quiescent point
-					capMu.Lock()
-					captured = frame + 1
-					capMu.Unlock()
+					// after this release the store(s) for this frame complete before the next quiescent point (and so do
+					// the frames after it that are not captured)
 					frame++
+					skip()
+					capMu.Lock()
+					captured = frame
+					capMu.Unlock()
 					passed = 0
 				}
 			}
